@@ -216,6 +216,9 @@ func (x *Exec) freshVal(prefix string, t types.Type, st *State) Val {
 			n += "." + l.Path
 		}
 		v.L[i] = x.E.fresh(n, l.S)
+		if l.S.K == SInt && (l.Path == "ref" || strings.HasSuffix(l.Path, ".ref") || l.Path == "tag" || strings.HasSuffix(l.Path, ".tag") || (l.T != nil && isRefLike(l.T))) {
+			refVars[v.L[i].Name] = true
+		}
 	}
 	if st != nil {
 		st.assume(x.typeInv(v, st))
